@@ -153,3 +153,8 @@ V('C19', 'revert-fix-memory-not-rendered', 'edb/schema/utils.py',
   'edb.schema.utils.const_ast_from_python',
   '    elif isinstance(val, statypes.ConfigMemory):', '    elif False:', 'C19.R5',
   'const_ast_from_python:kind=ConfigMemory')
+
+# round 5: the stored seeded breaks this property's check reports, replayed as variants
+from sa.selftest import VP  # noqa
+VP('C19', 'C19-e2', 'C19.L', 'cache-key-equality')
+VP('C19', 'C19-e3', 'C19.R11', 'unit=EiB')
